@@ -367,6 +367,9 @@ def absent_key_guard(view, f, ev):
         d = strip(vp.operand(f, t["discr"]))
         if d[0] == "call" and d[1].split("::")[-1] in ("is_none", "is_some") and contains(d, site):
             return "controls", (bi, d[1].split("::")[-1], t)
+        if d[0] == "discr" and contains(d, site) and len(f.cfg.succ[bi]) >= 2:
+            # `if let None = map.insert(k, v)` / `match map.insert(k, v) { None => grow, Some(_) => {} }`
+            return "controls", (bi, ("discr", d), t)
     return False, "neither a VacantEntry insert, nor guarded by contains_key on the same key, nor inspected"
 
 
@@ -410,8 +413,16 @@ def r_tables(ctx, view, want=("R-GROW", "R-TORN"), only=None):
                 r = absent_key_guard(view, f, e)
                 if r[0] == "controls":
                     bi, nm, t = r[1]
-                    zero = [tb for v, tb in t["targets"] if v == 0][0]
-                    present_edge = (bi, zero) if nm == "is_none" else (bi, t["otherwise"])
+                    if isinstance(nm, tuple):
+                        from .core import edge_presence as _ep
+                        pres = [nb for nb in f.cfg.succ[bi] if _ep(nm[1], t, nb) == "present"]
+                        if len(pres) != 1:
+                            g1_obs.append((e, False, "the Option result of the insert is matched, but its Some edge is not identifiable", None))
+                            continue
+                        present_edge = (bi, pres[0])
+                    else:
+                        zero = [tb for v, tb in t["targets"] if v == 0][0]
+                        present_edge = (bi, zero) if nm == "is_none" else (bi, t["otherwise"])
                     g1_obs.append((e, True, "its Option result is inspected; tables grow only on the key-absent edge", present_edge))
                 else:
                     g1_obs.append((e, r[0], r[1], None))
